@@ -5,9 +5,13 @@
 package libsim
 
 import (
+	"encoding/json"
 	"fmt"
 	"hash/fnv"
 	"math"
+	"os"
+	"os/exec"
+	"path/filepath"
 	"sync"
 	"testing"
 	"time"
@@ -260,7 +264,14 @@ func soloKey(call int, sp InputSpec) string {
 	return fmt.Sprintf("%d|%d|%d|%s", call, sp.N, sp.Seed, sp.Kind)
 }
 
-// Solo returns the result of the call made alone (memoised per process).
+// Solo returns the result of the call made alone. "Alone" means in a process
+// that has done nothing else: the reference is computed by re-executing this
+// test binary as a fresh child process for every distinct (call, input), so
+// that state the library keeps between calls (a cache, a memoised table, a
+// pooled buffer) cannot make the reference agree with a polluted result.
+// Results are memoised in memory and, across the engine processes of one
+// check, in the directory VERIF_REF_DIR. With VERIF_REF_DIR unset the
+// reference is computed in-process (race monitor).
 func Solo(call int, sp InputSpec) Res {
 	k := soloKey(call, sp)
 	solo.Lock()
@@ -269,12 +280,63 @@ func Solo(call int, sp InputSpec) Res {
 	if ok {
 		return r
 	}
-	in := NewInput("solo", sp.N, sp.Seed, sp.Kind)
-	r = Invoke(&Catalogue[call], in)
+	dir := os.Getenv("VERIF_REF_DIR")
+	if dir == "" {
+		in := NewInput("solo", sp.N, sp.Seed, sp.Kind)
+		r = Invoke(&Catalogue[call], in)
+	} else {
+		r = soloChild(dir, call, sp)
+	}
 	solo.Lock()
 	solo.m[k] = r
 	solo.Unlock()
 	return r
+}
+
+// RefRequest is what a reference child process is asked to compute.
+type RefRequest struct {
+	Call int       `json:"call"`
+	Spec InputSpec `json:"spec"`
+	Out  string    `json:"out"`
+}
+
+func soloChild(dir string, call int, sp InputSpec) Res {
+	h := fnv.New64a()
+	h.Write([]byte(Catalogue[call].Name + "|" + soloKey(call, sp)))
+	file := filepath.Join(dir, fmt.Sprintf("%016x.json", h.Sum64()))
+	if b, err := os.ReadFile(file); err == nil {
+		var r Res
+		if json.Unmarshal(b, &r) == nil {
+			return r
+		}
+	}
+	tmp := fmt.Sprintf("%s.%d.tmp", file, os.Getpid())
+	req, _ := json.Marshal(RefRequest{Call: call, Spec: sp, Out: tmp})
+	cmd := exec.Command(os.Args[0], "-test.run", "TestRefChild", "-test.timeout", "10m")
+	cmd.Env = append(os.Environ(), "VERIF_REF_REQ="+string(req), "VERIF_JOB=", "VERIF_REF_DIR=")
+	outb, err := cmd.CombinedOutput()
+	b, rerr := os.ReadFile(tmp)
+	if err != nil || rerr != nil {
+		panic(fmt.Sprintf("libsim: reference child failed for %s: %v %v\n%s", Catalogue[call].Name, err, rerr, outb))
+	}
+	var r Res
+	if err := json.Unmarshal(b, &r); err != nil {
+		panic("libsim: reference child wrote garbage: " + err.Error())
+	}
+	os.Rename(tmp, file)
+	return r
+}
+
+// RefChildMain is the body of the reference child process.
+func RefChildMain(reqJSON string) error {
+	var req RefRequest
+	if err := json.Unmarshal([]byte(reqJSON), &req); err != nil {
+		return err
+	}
+	in := NewInput("solo", req.Spec.N, req.Spec.Seed, req.Spec.Kind)
+	r := Invoke(&Catalogue[req.Call], in)
+	b, _ := json.Marshal(r)
+	return os.WriteFile(req.Out, b, 0644)
 }
 
 // Outcome of a run.
